@@ -16,6 +16,7 @@ import (
 	"testing/synctest"
 	"time"
 
+	"github.com/f1bonacc1/process-compose/src/admitter"
 	"github.com/f1bonacc1/process-compose/src/app"
 	"github.com/f1bonacc1/process-compose/src/command"
 	"github.com/f1bonacc1/process-compose/src/loader"
@@ -63,6 +64,7 @@ type Scenario struct {
 	Idle       time.Duration // idle horizon: no activity for this long means stuck (default 40s)
 	MapSites   []string      // substrings of MapRange sites explored under the scheduler
 	NoRun      bool          // do not call Run() (pure API scenarios)
+	Namespaces []string      // namespace admitter (as `-n`)
 	AuxAsEnv   bool          // the completion of an auxiliary command is an environment event (else a thread step)
 	Setup      func(w *World)
 	Check      func(w *World) []Violation
@@ -372,6 +374,9 @@ func (w *World) body(prefix []int) {
 	main := w.writeFiles()
 	opts := &loader.LoaderOptions{FileNames: []string{main}, IsInternalLoader: true}
 	opts.DisableDotenv(true)
+	if len(sc.Namespaces) > 0 {
+		opts.AddAdmitter(&admitter.NamespaceAdmitter{EnabledNamespaces: sc.Namespaces})
+	}
 	project, err := loader.Load(opts)
 	if err != nil {
 		w.LoadErr = err
